@@ -70,6 +70,7 @@ void ParticleSwarmState::initializeParticlesInsideBox(const double box_lower[], 
         particle_velocities[i] = 2 * range * get_random01() - range;
     }
     positions_initialized = true;
+    cache_initialized = false; // the cached objective values belong to the old positions
     velocities_initialized = true;
 }
 
